@@ -331,7 +331,7 @@ impl Compiler {
         const_value: isize,
         operator: &Operator,
     ) -> Result<(), Error> {
-        let idx_constant = self.add_constant(Object::int(const_value));
+        let idx_constant = self.add_constant(Object::checked_int(Some(const_value))?);
         let symbol = self.symbols.resolve(varname);
         match symbol {
             Some(symbol) => {
@@ -380,7 +380,8 @@ impl Compiler {
                 self.emit_u16(idx);
             }
             Expr::Int { value } => {
-                let idx = self.add_constant(Object::int(*value));
+                // integer literals may be larger than what fits in an integer value
+                let idx = self.add_constant(Object::checked_int(Some(*value))?);
                 self.emit_opcode(OpCode::Const);
                 self.emit_u16(idx);
             }
